@@ -1071,4 +1071,146 @@ theorem passthrough_from (s0 s : SeqSt) (evs : List Ev) (hok : stOk s0 = true) (
         exact ⟨n', by simp [normRun, hh, hn']⟩
 
 
+/-! ## events of the head entity are forwarded at once -/
+
+/-- after an emission the buffers of the entries at the head of the output are empty: everything that
+    could be forwarded has been -/
+def attsDrained : List AttQ → Bool
+  | [] => true
+  | a :: _ => a.evs.isEmpty
+
+def itemsDrained : List Item → Bool
+  | [] => true
+  | .att a :: _ => a.evs.isEmpty
+  | .rule _ rq :: _ => rq.initial || attsDrained rq.atts
+
+def headDrained : List (Nat × FeatQ) → Bool
+  | [] => true
+  | (_, q) :: _ => q.initial || itemsDrained q.items
+
+theorem emitAtts_drained (f : Nat) (r : Option Nat) (atts : List AttQ) : attsDrained (emitAtts f r atts).2 = true := by
+  induction atts with
+  | nil => rfl
+  | cons a rest ih =>
+    simp only [emitAtts]
+    split
+    · exact ih
+    · rfl
+
+theorem emitItems_drained (f : Nat) (items : List Item) : itemsDrained (emitItems f items).2 = true := by
+  induction items with
+  | nil => rfl
+  | cons it rest ih =>
+    cases it with
+    | att a =>
+      simp only [emitItems]
+      split
+      · exact ih
+      · rfl
+    | rule r q =>
+      simp only [emitItems]
+      split
+      · exact ih
+      · simp only [itemsDrained, emitRule]
+        split <;> simp [emitAtts_drained]
+
+theorem emitFeats_drained (fs : List (Nat × FeatQ)) : headDrained (emitFeats fs).2 = true := by
+  induction fs with
+  | nil => rfl
+  | cons fq rest ih =>
+    obtain ⟨f, q⟩ := fq
+    simp only [emitFeats]
+    split
+    · exact ih
+    · simp [headDrained, emitItems_drained]
+
+
+/-- **T4b**: an event of the attempt that the queue shows as OPEN at the head of the output is forwarded by
+    the very call that receives it, first — it does not wait for the attempt (or anything else) to finish. -/
+theorem head_event_forwarded (n n' : Norm) (k : ScenKey) (ret : Option Retries) (ev : ScenEv) (out : List Ev)
+    (hno : n.fin = .no) (hd : headDrained n.feats = true)
+    (hst : featsSt n.feats = inAtt k.feat k.rule (some (k, ret)))
+    (h : n.handle (.scen k ret ev) = some (n', out)) : out.head? = some (.scen k ret ev) := by
+  obtain ⟨kf, kr, ks⟩ := k
+  obtain ⟨feats, nfin⟩ := n
+  simp only at hno hd hst
+  subst hno
+  cases feats with
+  | nil => simp [featsSt, inAtt] at hst
+  | cons fq rest =>
+    obtain ⟨f, ⟨qi, qf, qitems⟩⟩ := fq
+    simp only [featsSt, featSt] at hst
+    cases qi with
+    | true => simp [inAtt] at hst
+    | false =>
+      simp only [Bool.false_eq_true, if_false] at hst
+      simp only [headDrained, Bool.false_or] at hd
+      cases qitems with
+      | nil => simp [itemsSt, inAtt] at hst
+      | cons it items =>
+        cases it with
+        | att a =>
+          obtain ⟨as, aret, aevs⟩ := a
+          simp only [itemsSt, inAtt, SeqSt.mk.injEq, Option.some.injEq] at hst
+          obtain ⟨hf, hr, ha, _⟩ := hst
+          subst hf
+          have hr' : kr = none := hr.symm
+          subst hr'
+          simp only [itemsDrained, List.isEmpty_iff] at hd
+          subst hd
+          have hkey : as = ks ∧ aret = ret := by
+            split at ha
+            · cases ha
+            · simpa [attKey] using ha
+          obtain ⟨rfl, rfl⟩ := hkey
+          simp only [Norm.handle, Norm.insert, updFeat, FeatQ.insertScen, updFirst, Item.isAtt, Item.pushAtt, AttQ.push,
+            emitFeats, emitItems, emitAtt, Ev.isRunLevel, wrapAtt, beq_self_eq_true, Bool.and_self, any_cons, Bool.true_or,
+            if_true, Option.map_some, nil_append, map_cons, map_nil, show (Fin.no == Fin.emitted) = false from rfl,
+            Bool.false_eq_true, if_false] at h
+          by_cases hfin : ev = .finished
+          · subst hfin
+            simp only [beq_self_eq_true, if_true] at h
+            split at h <;> (split at h <;> (simp only [Option.some.injEq, Prod.mk.injEq] at h; rw [← h.2]; simp))
+          · have hfin' : (ev == ScenEv.finished) = false := by simpa using hfin
+            simp only [hfin', Bool.false_eq_true, if_false] at h
+            split at h <;> (split at h <;> (simp only [Option.some.injEq, Prod.mk.injEq] at h; rw [← h.2]; simp))
+        | rule r rq =>
+          obtain ⟨ri, rf, ratts⟩ := rq
+          simp only [itemsSt, ruleSt] at hst
+          cases ri with
+          | true => simp [inAtt] at hst
+          | false =>
+            simp only [Bool.false_eq_true, if_false, inAtt, SeqSt.mk.injEq, Option.some.injEq] at hst
+            obtain ⟨hf, hr, ha, _⟩ := hst
+            subst hf
+            have hr' : kr = some r := hr.symm
+            subst hr'
+            simp only [itemsDrained, Bool.false_or] at hd
+            cases ratts with
+            | nil => simp [attsSt] at ha
+            | cons a atts =>
+              obtain ⟨as, aret, aevs⟩ := a
+              simp only [attsDrained, List.isEmpty_iff] at hd
+              subst hd
+              simp only [attsSt] at ha
+              have hkey : as = ks ∧ aret = ret := by
+                split at ha
+                · cases ha
+                · simpa [attKey] using ha
+              obtain ⟨rfl, rfl⟩ := hkey
+              simp only [Norm.handle, Norm.insert, updFeat, FeatQ.insertScen, updFirst, Item.isRule, Item.pushInRule, pushAtt,
+                AttQ.is, AttQ.push, emitFeats, emitItems, emitRule, emitAtts, emitAtt, Ev.isRunLevel, wrapAtt, beq_self_eq_true,
+                Bool.and_self, any_cons, Bool.true_or, if_true, Option.map_some, nil_append, map_cons, map_nil,
+                show (Fin.no == Fin.emitted) = false from rfl, Bool.false_eq_true, if_false] at h
+              by_cases hfin : ev = .finished
+              · subst hfin
+                simp only [beq_self_eq_true, if_true] at h
+                repeat' split at h
+                all_goals (simp only [Option.some.injEq, Prod.mk.injEq] at h; rw [← h.2]; simp)
+              · have hfin' : (ev == ScenEv.finished) = false := by simpa using hfin
+                simp only [hfin', Bool.false_eq_true, if_false] at h
+                repeat' split at h
+                all_goals (simp only [Option.some.injEq, Prod.mk.injEq] at h; rw [← h.2]; simp)
+
+
 end Cuke.NormL
